@@ -309,6 +309,11 @@ def judge(rep, prop, scenarios, traces, scratch, label='impl', struct_owner=None
             owners.update(RULE_OWNER.get(r, []))
         if not owners:
             owners = {'C03'} if not rules or rules <= {'struct'} else set()
+        # a flow that the engine refuses (or trips over) is a failure of C05 as well
+        if 'exception' in rules and 0 < stuck <= len(traces[t]) and any(
+                w in str(traces[t][stuck - 1].get('text', ''))
+                for w in ('dependency step', 'flow', 'cycle')):
+            owners.add('C05')
         # once a structural operation has been issued, a scheduling failure is
         # (also) a failure to run exactly what is in the hierarchy
         if struct_owner and any(r.get('ev') == 'poll' and r.get('sop', {}).get('op') != 'none'
